@@ -98,7 +98,7 @@ def _validate_lin(ck, trace_path):
             pos = int(m.group(1)) - 1 if m else 1
             sig, what = "overlapping-filesys-calls", "two FileSys calls overlap on one entry"
         else:
-            m = re.search(r'"REJECTED-AT", (\d+)', r.out)
+            m = re.search(r'"REJECTED-AT", (\d+)', r.out) or re.search(r'REJECTED-AT[^0-9]*(\d+)', r.out)
             if not m:
                 raise vlib.Inconclusive("FidLin validation failed unexpectedly:\n" + r.out[-3000:])
             pos = int(m.group(1))
@@ -120,7 +120,8 @@ def _validate_lin(ck, trace_path):
 def c14(tier):
     ck = Check("C14", tier, "model_checking")
     ck.assumptions = [
-        "client discipline (the property's parenthesis): a fid that one in-flight request allocates is not named by another in-flight request",
+        "client discipline: exactly the property's parenthesis - no new fid is allocated by two requests at once; other requests may name a fid "
+        "while it is being allocated",
         "FileSys outcomes are scripted per operation; shared fids 0,1 plus one private allocation target per process",
         "data-race freedom is judged by the Go race detector on the same workloads (thorough tier only)"]
     q = tier == "quick"
@@ -130,10 +131,11 @@ def c14(tier):
             raise vlib.Inconclusive("FidConc violates %s:\n%s" % (r.violation, r.out[-3000:]))
         ck.add_cov(states=r.distinct, transitions=r.generated)
         ck.cov.setdefault("tlc_runs", []).append({"cfg": cfg, **r.summary()})
-    ra = tlc("fid", "FidConc", "FidConc_asis.cfg", workers=8, timeout=600)
-    if ra.violation is None:
-        raise vlib.Inconclusive("FidConc as-is: no violation found (vacuity guard failed)")
-    ck.cov["tlc_runs"].append({"cfg": "FidConc_asis.cfg", "expected_violation": ra.violation})
+    for acfg in ("FidConc_asis.cfg", "FidConc_asis_del.cfg"):
+        ra = tlc("fid", "FidConc", acfg, workers=8, timeout=600)
+        if ra.violation is None:
+            raise vlib.Inconclusive("%s: no violation found (vacuity guard failed)" % acfg)
+        ck.cov["tlc_runs"].append({"cfg": acfg, "expected_violation": ra.violation})
     tp = os.path.join(OUT, "fidconc-%d.ndjson" % os.getpid())
     doc = harness(["fidconc", "-n", "400" if q else "6000", "-trace", tp], timeout=1500)
     if doc.get("extra", {}).get("error"):
